@@ -606,16 +606,21 @@ def body_wrappers(case, ctx):
     }[which]()
     if which == "so21_to_sl2":
         mats = [lie.sl2_to_so21(M) for M in mats]
-    for M in mats:
+    # one wrapper object answers a sequence of calls, with and without a supplied inverse
+    # (an inverse supplied for one matrix has nothing to say about the next)
+    calls = [(0, True), (1, False), (0, False), (1, True), (0, False)] if case["give_inv"] \
+        else [(0, False), (1, False)]
+    for (k, with_inv) in calls:
+        M = mats[k]
         d = as_num(direct(M.copy()))
-        if case["give_inv"]:
+        if with_inv:
             w = as_num(wrapped(M.copy(), inv=np.linalg.inv(M)))
             ctx.label("inv-given")
             ctx.close("lie.hom wrapper(M, inv=M^-1) = direct call", w, d, rtol=1e-9,
                       atol=1e-9 * cond_of(M) ** 2)
         else:
             w = as_num(wrapped(M.copy()))
-            ctx.close("lie.hom wrapper(M) = direct call", w, d, rtol=0, atol=0)
+            ctx.close("lie.hom wrapper(M) = direct call", w, d, rtol=0, atol=0, call=k)
     if which == "so21_to_sl2":
         return          # a homomorphism only up to sign: not usable generator by generator
     # Representation.compose(hom): images of words are hom(rho(w))
@@ -685,6 +690,47 @@ def body_o_to_pgl_hom(case, ctx):
     ctx.small("|det o_to_pgl(S)| = 1", abs(abs(np.linalg.det(a)) - 1.0), 1e-6 * sc)
     ai = lie.o_to_pgl(np.linalg.inv(S))
     up_to_sign(ctx, "o_to_pgl(S^-1) = +- o_to_pgl(S)^-1", ai, np.linalg.inv(a), 2e-6 * sc ** 2)
+
+
+@st.composite
+def form_case(draw):
+    return dict(A=draw(real2(allow_neg=True)), B=draw(real2(allow_neg=True)),
+                P=draw(gen.wellcond_matrix(3, maxfactor=2.0)))
+
+
+def body_o_to_pgl_form(case, ctx):
+    """o_to_pgl(., bilinear_form=F) for a form F = P^T diag(-1,1,1) P of signature (2,1) that
+    is not the standard one: the elements P^-1 S P (S in the standard O(2,1)) preserve F, and
+    the map is sl2 <- so21 composed with a fixed change of basis, hence still a homomorphism
+    up to sign with |det| = 1 and the traces of the standard case"""
+    A, B = dec_real(case["A"]), dec_real(case["B"])
+    P = np.array(case["P"], dtype=float)
+    Pi = np.linalg.inv(P)
+    kp = float(np.linalg.cond(P))
+    ctx.label("kinds=%s,%s" % (case["A"]["kind"], case["B"]["kind"]), "n>=3", "general-form")
+    comm_label(ctx, A, B)
+    F = P.T @ np.diag([-1.0, 1.0, 1.0]) @ P
+    F = (F + F.T) / 2
+    S, T = lie.sl2_to_so21(A.copy()), lie.sl2_to_so21(B.copy())
+    S1, T1 = Pi @ S @ P, Pi @ T @ P
+    ctx.small("harness: P^-1 S P preserves F", S1.T @ F @ S1 - F,
+              1e-9 * kp ** 2 * max(1.0, O.norm2(A)) ** 4)
+    a, b = np.asarray(lie.o_to_pgl(S1.copy(), bilinear_form=F.copy())), \
+        np.asarray(lie.o_to_pgl(T1.copy(), bilinear_form=F.copy()))
+    ab = np.asarray(lie.o_to_pgl(S1 @ T1, bilinear_form=F.copy()))
+    sc = max(1.0, O.norm2(A)) ** 2 * max(1.0, O.norm2(B)) ** 2 * kp ** 2
+    ctx.check(a.shape == (2, 2) and a.dtype.kind == "f", "o_to_pgl(., form) returns a real 2x2 "
+              "matrix", got=a.shape)
+    up_to_sign(ctx, "o_to_pgl(S T, F) = +- o_to_pgl(S, F) o_to_pgl(T, F)", ab, a @ b, 2e-6 * sc,
+               A=A, B=B)
+    ctx.small("|det o_to_pgl(S, F)| = 1", abs(abs(np.linalg.det(a)) - 1.0), 1e-6 * sc)
+    ctx.small("|trace o_to_pgl(S, F)| = |trace A|", abs(abs(np.trace(a)) - abs(np.trace(A))),
+              2e-6 * sc)
+    e = np.asarray(lie.o_to_pgl(np.eye(3), bilinear_form=F.copy()))
+    ctx.close("o_to_pgl(I, F) = +-I", np.abs(e), np.eye(2), rtol=0, atol=1e-6 * kp ** 2)
+    ai = np.asarray(lie.o_to_pgl(np.linalg.inv(S1), bilinear_form=F.copy()))
+    up_to_sign(ctx, "o_to_pgl(S^-1, F) = +- o_to_pgl(S, F)^-1", ai, np.linalg.inv(a),
+               2e-6 * sc ** 2)
 
 
 def body_to_sl2(case, ctx):
@@ -796,6 +842,8 @@ LAWS = [
     Law("hom_wrappers", wrapper_case(), body_wrappers, nt, quick=150, thorough=1050, shards=(1, 4)),
     Law("o_to_pgl_inverts_sl2_to_so21", single_real2(), body_o_to_pgl_inverse, nt, quick=250,
         thorough=1750, shards=(1, 4)),
+    Law("o_to_pgl_general_form", form_case(), body_o_to_pgl_form, nt, quick=250, thorough=2000,
+        shards=(1, 4)),
     Law("o_to_pgl_homomorphism_up_to_sign", pair_real2(allow_neg=True), body_o_to_pgl_hom, nt,
         quick=250, thorough=1750, shards=(1, 4)),
     Law("isometry_to_sl2", pair_real2(allow_neg=True), body_to_sl2, nt, quick=150, thorough=1050,
